@@ -7,6 +7,7 @@ import (
 	"os"
 	"runtime"
 	"runtime/pprof"
+	"sort"
 	"strings"
 	"time"
 )
@@ -67,6 +68,10 @@ func cmdRun(args []string) {
 	if *tier == "thorough" {
 		t = 1
 	}
+	if os.Getenv("SYMGO_BRANCHPROF") != "" {
+		branchProf = map[string]int{}
+		defer func() {}()
+	}
 	e := newEngine(*repo, *verif, t)
 	for _, kv := range strings.Split(*params, ",") {
 		if kv == "" {
@@ -106,6 +111,23 @@ func cmdRun(args []string) {
 		if *dump {
 			b, _ := json.MarshalIndent(res, "", " ")
 			fmt.Println(string(b))
+		}
+	}
+	if branchProf != nil {
+		type kv struct {
+			k string
+			v int
+		}
+		var l []kv
+		for k, v := range branchProf {
+			l = append(l, kv{k, v})
+		}
+		sort.Slice(l, func(i, j int) bool { return l[i].v > l[j].v })
+		for i, x := range l {
+			if i > 25 {
+				break
+			}
+			fmt.Printf("  BRANCHPROF %6d %s\n", x.v, x.k)
 		}
 	}
 	os.Exit(code)
